@@ -321,65 +321,90 @@ func (m *immutableMap) Interface() any {
 
 // Equal checks if two Map instances are equal.
 func (m *immutableMap) Equal(other Value) bool {
-	if o, ok := other.(*immutableMap); ok {
-		if m.Hash() != o.Hash() {
-			return false
-		}
+	var o *immutableMap
+	switch v := other.(type) {
+	case *immutableMap:
+		o = v
+	case *mutableMap:
+		o = v.immutable()
+	default:
+		return false
+	}
 
-		if len(m.value) == len(o.value) {
-			for hash, elements1 := range m.value {
-				elements2 := o.value[hash]
-				if len(elements1) != len(elements2) {
+	if m.Hash() != o.Hash() {
+		return false
+	}
+
+	if len(m.value) == len(o.value) {
+		for hash, elements1 := range m.value {
+			elements2 := o.value[hash]
+			if len(elements1) != len(elements2) {
+				return false
+			}
+
+			for i := 0; i < len(elements1); i++ {
+				if !Equal(elements1[i][0], elements2[i][0]) {
 					return false
 				}
-
-				for i := 0; i < len(elements1); i++ {
-					v1 := elements1[i][1]
-					v2 := elements2[i][1]
-
-					if !Equal(v1, v2) {
-						return false
-					}
+				if !Equal(elements1[i][1], elements2[i][1]) {
+					return false
 				}
 			}
-			return true
 		}
+		return true
 	}
 	return false
 }
 
 // Compare checks whether another Object is equal to this Map instance.
 func (m *immutableMap) Compare(other Value) int {
-	if o, ok := other.(*immutableMap); ok {
-		if len(m.value) != len(o.value) {
-			return compare(len(m.value), len(o.value))
-		}
-
-		keys := make([]uint64, 0, len(m.value))
-		for key := range m.value {
-			keys = append(keys, key)
-		}
-		slices.Sort(keys)
-
-		for _, hash := range keys {
-			elements1 := m.value[hash]
-			elements2 := o.value[hash]
-			if len(elements1) != len(elements2) {
-				return compare(len(elements1), len(elements2))
-			}
-
-			for i := 0; i < len(elements1); i++ {
-				v1 := elements1[i][1]
-				v2 := elements2[i][1]
-
-				if c := Compare(v1, v2); c != 0 {
-					return c
-				}
-			}
-		}
-		return 0
+	var o *immutableMap
+	switch v := other.(type) {
+	case *immutableMap:
+		o = v
+	case *mutableMap:
+		o = v.immutable()
+	default:
+		return compare(m.Kind(), KindOf(other))
 	}
-	return compare(m.Kind(), KindOf(other))
+
+	if len(m.value) != len(o.value) {
+		return compare(len(m.value), len(o.value))
+	}
+
+	keys1 := make([]uint64, 0, len(m.value))
+	for key := range m.value {
+		keys1 = append(keys1, key)
+	}
+	slices.Sort(keys1)
+
+	keys2 := make([]uint64, 0, len(o.value))
+	for key := range o.value {
+		keys2 = append(keys2, key)
+	}
+	slices.Sort(keys2)
+
+	for i, hash := range keys1 {
+		if hash != keys2[i] {
+			return compare(hash, keys2[i])
+		}
+
+		elements1 := m.value[hash]
+		elements2 := o.value[hash]
+		if len(elements1) != len(elements2) {
+			return compare(len(elements1), len(elements2))
+		}
+
+		for i := 0; i < len(elements1); i++ {
+			if c := Compare(elements1[i][0], elements2[i][0]); c != 0 {
+				return c
+			}
+			if c := Compare(elements1[i][1], elements2[i][1]); c != 0 {
+				return c
+			}
+		}
+	}
+	return 0
 }
 
 // MarshalJSON converts the map into a JSON byte array.
